@@ -1,6 +1,7 @@
 import Rare.Base.Proto
 import Rare.Model.C02
 import Rare.Model.C02Filter
+import Rare.Model.C02Plan
 import Rare.Drv.C01
 import Rare.Gen.C02
 namespace Rare.Drv.C02
@@ -24,6 +25,9 @@ def ansOf : Except String KeyAns → String
   input whose matcher returned `indices` (`.` = no match): nothing when the line does not match or the
   whole match `{0}` is empty (the extractor drops empty keys), otherwise `filterLine`; the pattern is
   only used by the implementation side;
+* `plan <matchSet> <dissectSet> <posix> <ignoreCase> <matchExpr> <dissectExpr> <line> <candidates>` – the matcher
+  `BuildMatcherFromArguments` selects, applied to the line: the model picks among the engines' own answers
+  (`re(e); re((?i)e); posix(e); posix((?i)e); dissect(d,false); dissect(d,true)`, `E` = does not compile);
 * `vis <bytes>` – `color.StrLen`'s visible bytes (count compared with the real `StrLen`);
 * `pipe …`, `regexpipe <n>` – pipeline ops shared with C01.
 -/
@@ -57,6 +61,23 @@ def handle : List String → String
           | .ok segs => s!"ok {Hex.enc (render segs)}"
           | .error _ => "panic"
     | _, _ => "bad-args"
+  | ["plan", ms, ds, px, ic, me, de, l, cands] =>
+    match Hex.dec me, Hex.dec de, Hex.dec l with
+    | some matchExpr, some dissectExpr, some line =>
+      let cs := cands.splitOn ";"
+      let pick (i : Nat) : String := match cs[i]? with
+        | some "E" => "error"
+        | some a => s!"ok {a}"
+        | none => "bad-args"
+      match matcherPlan (ms == "1") (ds == "1") matchExpr dissectExpr (px == "1") (ic == "1") with
+      | .conflict => "error"
+      | .always => s!"ok {",".intercalate ((alwaysIndices line).map toString)}"
+      | .dissect e i => if e == dissectExpr then pick (if i then 5 else 4) else "bad-plan"
+      | .regex e p =>
+        if e == matchExpr then pick (if p then 2 else 0)
+        else if e == icPrefix ++ matchExpr then pick (if p then 3 else 1)
+        else "bad-plan"
+    | _, _, _ => "bad-args"
   | ["vis", b] =>
     match Hex.dec b with
     | some bytes =>
